@@ -5,14 +5,16 @@ META = dict(
     assumptions=['PLACEHOLDER'],
 )
 
-CORE = ['src/core/mem.c', 'src/core/util.c', 'src/core/u32.c', 'src/core/u64.c', 'src/core/u16.c', 'src/core/word.c', 'src/core/blob.c']
+MEM = ('src/core/mem.c', {'remove': ['memWipe']})
+WIPE = ['harness/C11/stub_memwipe.c']
+CORE = [MEM, 'src/core/util.c', 'src/core/u32.c', 'src/core/u64.c', 'src/core/u16.c', 'src/core/word.c', 'src/core/blob.c']
 BELT_CORE = CORE + ['src/crypto/belt/belt_lcl.c']
 BLOCK = ('src/crypto/belt/belt_block.c', {'remove': ['beltBlockEncr', 'beltBlockEncr2', 'beltBlockEncr3', 'beltBlockDecr', 'beltBlockDecr2', 'beltBlockDecr3']})
 UF = ['stubs/belt_block_uf.c']
 UFE = ['stubs/belt_block_uf_e.c']
 B = 'src/crypto/belt/'
 H = 'harness/C11/'
-FS = ['--max-field-sensitivity-array-size', '512']
+FS = []   # measured: the default field-sensitivity bound is 2.5x faster in symex here than 512 and gives the same formula
 
 
 def sg(x):
@@ -57,7 +59,7 @@ def cipher6(fn, srcfile, lens, full_len, tier, uf, steps, maxn=48, aux_lens=None
             inst.append(('s_%d_%s' % (n, sg(d)), '%d, %d, %d, %d, %d, 32' % (n, L.s0, L.s0 + d, L.keyp, L.ivp)))
     common = dict(harness=H + fn + '.c', defs=['MAXN=%d' % maxn, 'ASZ=%d' % L.asz, 'RSZ=%d' % (2 * maxn + 160)],
                   srcs=BELT_CORE + [BLOCK, B + srcfile] + (['src/crypto/belt/belt_wbl.c'] if 'SDE' in fn else []),
-                  stub_files=uf, stubs=[uf[0].split('/')[-1][:-2]], unwind=maxn + 40, timeout=timeout, mem_gb=6, cbmc_extra=FS,
+                  stub_files=uf + WIPE, stubs=[uf[0].split('/')[-1][:-2], 'memWipe -> no-op'], unwind=maxn + 40, timeout=timeout, mem_gb=6, cbmc_extra=FS,
                   unwind_rules=[(r'^(belt)\w+Step\w*\.\d+$', maxn // 16 + 4), (r'^c11_cp\.\d+$', L.asz + 2)], funcs=[fn] + steps)
     obs = [Ob(name='c11_%s_shift' % fn, instances=inst,
               bound='count in %s; dest = src + delta, delta in {-(count+16), -count, -17, -16, -15, -1, 0, 1, 15, 16, 17, count, count+16}%s; key (32 octets) and iv outside both: %d concrete placements, each decided for ALL contents of the arena (data, key, iv)'
